@@ -59,7 +59,13 @@ NoWant == [valid |-> FALSE, attempts |-> 0, err |-> FALSE, handled |-> 0, clock 
 (* cfg: [proto, enabled, maxel (0 = no limit), boffmax (largest possible backoff interval),
          tol (tolerance of the soft clauses), atto (short per-attempt client timeout of an HTTP exporter, 0 = none),
          cto (short export timeout of a gRPC exporter: bounds the whole call, 0 = none), tick, want,
-         nhdr (number of configured headers), enc (configured content encoding), grp]
+         nhdr (number of configured headers), enc (configured content encoding), grp,
+         dl (deadline of the caller's context, 0 = none)]
+   RetryConfig VALUE classes (round 6): maxel = 0 means NO elapsed-time limit, whatever default the library has for an
+   unset policy; a configured limit counts as configured however large it is.  So after a retryable answer the call
+   may end with an error only when the CONFIGURED limit would be exceeded (gave-up-early otherwise), and with a
+   server-supplied delay far beyond any default limit and a short caller deadline it has to wait until that
+   deadline (el >= dl) and then return promptly (late-return-after-deadline).
    nhdr / enc (and, invisible here, whether options or the environment configured the exporter and whether a timeout
    was given explicitly) are the exporter-option dimension: NO clause below depends on them, except that the
    configured headers and encoding themselves must accompany every attempt. *)
@@ -82,7 +88,9 @@ OnStop(m, e) == [m EXCEPT !.stopMissed = @ \/ e.k # m.n,
                           !.stopRaced = @ \/ (m.ret = "none" /\ m.n > 0 /\ m.answered
                                                /\ Class(m.cfg.proto, m.last) \in {"success", "partial", "final"})]
 Delivered(m) == m.cfg.atto = 0 \/ m.last.acked     \* the client really received the last response
-Expired(m, el) == m.cfg.cto # 0 /\ el >= m.cfg.cto   \* the export timeout of the whole call may have fired
+(* the export timeout of the whole call may have fired, or the deadline of the CALLER's context (cfg.dl, 0 = none;
+   counted from the Call event, which is logged before the deadline is armed) may have passed: "the context is cancelled" *)
+Expired(m, el) == (m.cfg.cto # 0 /\ el >= m.cfg.cto) \/ (m.cfg.dl # 0 /\ el >= m.cfg.dl)
 CurClass(m) == IF m.n = 0 THEN "none" ELSE IF ~m.answered THEN "aborted" ELSE Class(m.cfg.proto, m.last)
 CurThr(m) == IF m.n = 0 \/ ~m.answered \/ ~Delivered(m) THEN 0 ELSE Throttle(m.cfg.proto, m.last)
 
@@ -140,6 +148,7 @@ OnRet(m, e) ==
        \cup (IF m.sdRetT >= 0 /\ e.t - m.sdRetT > c.tol THEN {V("late-return-after-shutdown", TRUE, m, e.t - m.sdRetT)} ELSE {})
        \cup (IF cls \in {"success", "partial", "final"} /\ e.t - m.last.t > c.tol THEN {V("late-return", TRUE, m, e.t - m.last.t)} ELSE {})
        \cup (IF c.cto # 0 /\ el > c.cto + c.tol THEN {V("call-beyond-timeout", TRUE, m, el)} ELSE {})
+       \cup (IF c.dl # 0 /\ el > c.dl + c.tol THEN {V("late-return-after-deadline", TRUE, m, el)} ELSE {})
        \cup (IF c.enabled /\ c.maxel # 0 /\ el > c.maxel + c.boffmax + lastDur + setup + c.tol
                THEN {V("blocked-beyond-max-elapsed", TRUE, m, el)} ELSE {})>>
 
@@ -152,6 +161,7 @@ OnRet(m, e) ==
 OnEnd(m) ==
   LET w == m.cfg.want
       comparable == /\ w.valid /\ m.ret # "none" /\ m.sdCallT < 0 /\ ~m.attAfterStop /\ ~m.stopMissed /\ ~m.stopRaced /\ m.cfg.maxel = 0 /\ m.cfg.cto = 0
+                    /\ (m.cfg.dl = 0 \/ m.retT - m.callT < m.cfg.dl)   \* a call that reached its caller's deadline raced with it
       got == [attempts |-> m.n, err |-> (m.ret = "err"), handled |-> Cardinality(m.handled)]
   IN <<m, IF comparable /\ got # [attempts |-> w.attempts, err |-> w.err, handled |-> w.handled]
             THEN {V("prediction-mismatch", Flaky(m), m, w.attempts)} ELSE {}>>
